@@ -22,6 +22,12 @@ func FileMatch(path string) (string, string, error) {
 
 	withoutExt := strings.TrimSuffix(path, "."+f)
 
+	// Resolve ".." lexically, the way the (possibly root-confined) open of
+	// the file does: "link/../x" is "x", not a sibling of the link's target.
+	if _, base := filepath.Split(withoutExt); base != "" {
+		withoutExt = filepath.Clean(withoutExt)
+	}
+
 	if filepath.Base(withoutExt) == "-" {
 		return path, f, nil
 	}
